@@ -37,7 +37,7 @@ TRUSTED = [
 ]
 ASSUMPTIONS = ["identifiers are ASCII (plain or raw), or UTF-8 under the rules serde computes with ASCII operations (see level_note)"]
 
-PRINT_STATS = {"decls": 0}
+PRINT_STATS = {"decls": 0, "bytewise": 0}
 KF_IDS = ["C06-2", "C06-3", "C06-4", "C06-5", "C06-7"]      # order of ExC06.c06_classes; C06-1, -6, -8, -9 are repaired      # order of ExC06.c06_classes; C06-1 and C06-6 are repaired
 
 
@@ -147,7 +147,7 @@ def printed_decl(kind, mode, text, names):
             if k is None:
                 return real, None
             members.append([name, k[0], k[1], k[2]])
-        return real, sx([what, "T0", members])
+        return real, sx([what, "T0", members, real])
     if not names:
         return None
     head, what = ("export type T0 = ", "alias") if mode == "plain" else ("export const T0Schema = z.enum([", "zenum")
@@ -156,7 +156,7 @@ def printed_decl(kind, mode, text, names):
         return None
     b = text.find("\n", a)
     real = text[a:b if b >= 0 else len(text)]
-    return real, sx([what, "T0", [[n, False, False, ""] for n in names]])
+    return real, sx([what, "T0", [[n, False, False, ""] for n in names], real])
 
 
 def evaluate(cases, e2e=True):
@@ -219,8 +219,11 @@ def evaluate(cases, e2e=True):
             if (ci, mode) in pr_real:
                 PRINT_STATS["decls"] += 1
                 got = pr_res.get((ci, mode))
-                if not isinstance(got, str) or got != pr_real[(ci, mode)]:
+                # equal as text, or at least the same token sequence (a change of white space in a template is not a disagreement)
+                if not isinstance(got, list) or len(got) != 2 or (got[0] != pr_real[(ci, mode)] and got[1] != "true"):
                     print_bad[mode] = {"real": pr_real[(ci, mode)], "model": got}
+                elif got[0] == pr_real[(ci, mode)]:
+                    PRINT_STATS["bytewise"] += 1
         in_dom = in_dom == "true"
         model_names = list(model[1]) if model[0] == "ok" else None
         kf = None
@@ -495,6 +498,7 @@ def run_streams(rep):
     rep.add("histories", evaluate_histories(routes.history_cases(thorough)))
     rep.add("real-serde", real_serde_outcomes())
     rep.extra["printed_declarations_compared_with_model_text"] = PRINT_STATS["decls"]
+    rep.extra["printed_declarations_equal_byte_for_byte"] = PRINT_STATS["bytewise"]
 
 
 def replay(rep, payload):
